@@ -34,7 +34,7 @@ CLAIMS["C07"] = {
 CLAIMS["C20"] = {
     "technique": "exhaustive enumeration of lengths x offsets x aliasing against a byte-wise reference, plus rapid cases up to 5000 bytes; xor_old.go compiled with its build constraint stripped",
     "engine": "rapid-models",
-    "text": "Enumerated and generated inputs: all (len a, len b) up to 24 (quick) / 40 (thorough), all start offsets 0..7 of the three slices, aliasing none/dst==a/dst==b and three destination lengths, for the toolchain-selected XorBytes and for XorBytes, fastXORBytes and safeXORBytes of xor_old.go (compiled from the working tree with the build line removed); result, return value and every guard byte of the three backing arrays are compared with a byte-wise reference. rapid adds lengths up to 5000; a native fuzz target exists for the thorough tier. Exhaustive within the stated bounds, exploration beyond.",
+    "text": "Enumerated and generated inputs: all (len a, len b) up to 24 (quick) / 40 (thorough), all start offsets 0..7 of the three slices, aliasing none/dst==a/dst==b and three destination lengths, for the toolchain-selected XorBytes and for XorBytes, fastXORBytes and safeXORBytes of xor_old.go (compiled from the working tree with the build line removed); result, return value and every guard byte of the three backing arrays are compared with a byte-wise reference. rapid adds lengths up to 5000 and structured contents (all zero, all 0xFF, runs of zero bytes, small alphabets besides pseudo-random bytes); a native fuzz target exists for the thorough tier. Exhaustive within the stated bounds, exploration beyond.",
     "note": "xor_arm.go/xor_arm.s cannot be built or run on amd64 and are not covered. Trusted: the byte-wise reference loop.",
     "design_ref": "DESIGN.md §3 C20",
 }
@@ -65,7 +65,7 @@ CLAIMS["C18"] = {
 CLAIMS["C16"] = {
     "technique": "rapid-generated streams through the loss filter into a recording sink: equality / emptiness / subsequence oracle and a 6-sigma binomial bound",
     "engine": "rapid-models",
-    "text": "Generated-input search: chances {0,1,5,50,95,99,100,101,1000, negative} and uniform 0..100, streams of 0..2000 tagged chunks (40000 for the statistical cases) are pushed through NewLossFilter in front of a sink NIC; chance 0 must forward everything, chance >= 100 nothing, the output is always an in-order, duplicate-free, byte-identical subsequence with unchanged addresses, and on 40000 chunks the dropped count must lie within 6 sigma of N*p. An end-to-end variant attaches NewLossFilter(host) to a router through the public API and checks the same on what the socket behind it receives. A long-stream unit pushes 16 million arrivals through one filter and applies the 6-sigma bound at every power-of-two stream length from 65536 on. Exploration plus statistical tests.",
+    "text": "Generated-input search: chances {0,1,5,50,95,99,100,101,1000, negative} and uniform 0..100, streams of 0..2000 tagged chunks (40000 for the statistical cases) are pushed through NewLossFilter in front of a sink NIC; (UDP chunks and TCP segments with drawn control bits); chance 0 must forward everything, chance >= 100 nothing, the output is always an in-order, duplicate-free, byte-identical subsequence whose chunks show the same String(), Tag(), Network() and addresses as on arrival, and on 40000 chunks the dropped count must lie within 6 sigma of N*p. An end-to-end variant attaches NewLossFilter(host) to a router through the public API and checks the same on what the socket behind it receives. A long-stream unit pushes 16 million arrivals through one filter and applies the 6-sigma bound at every power-of-two stream length from 65536 on. Exploration plus statistical tests.",
     "note": "Trusted: in-package sink shim (shims/vnet); the statistical assertion has a false-alarm probability below 2e-9 per case.",
     "design_ref": "DESIGN.md §3 C16",
 }
@@ -119,7 +119,7 @@ CLAIMS["C17"] = {
 CLAIMS["C11"] = {
     "technique": "rapid state machine over a real loopback listener against a remote->connection/backlog model, marker datagrams for negative answers; concurrent bursts with isolation/order/duplicate oracle",
     "engine": "rapid-models",
-    "text": "Generated-input search on real sockets: backlog {1,2,4,128}, accept filter on/off, batch reading off/2/8, 1..6 remotes on the same IP; steps send / accept / read / close / send-again / gated bursts (datagrams of several remotes, accepted, refused, overflowing, written while the read loop is held and dispatched from one batch); after every send a marker datagram from an always-accepted remote is read back, which proves (single-threaded FIFO read loop) that the earlier datagram has been dispatched, so 'created nothing' is decided without sleeping. Accept order and RemoteAddr, every Read (byte-identical next datagram of that remote), backlog overflow, filter refusal and reconnect-after-close (fresh object) are compared with the model; finally the backlog must hold nothing the model does not know. A concurrent test checks isolation, per-remote order, no duplicates and unique RemoteAddr under bursts. Exploration only.",
+    "text": "Generated-input search on real sockets: backlog {1,2,4,128}, accept filter on/off, batch reading off/2/8, 1..6 remotes on the same IP; steps send / accept / read / close / send-again / gated bursts (datagrams of several remotes, accepted, refused, overflowing, written while the read loop is held and dispatched from one batch); after every send a marker datagram from an always-accepted remote is read back, which proves (single-threaded FIFO read loop) that the earlier datagram has been dispatched, so 'created nothing' is decided without sleeping. Accept order and RemoteAddr, every Read (byte-identical next datagram of that remote), backlog overflow, filter refusal and reconnect-after-close (fresh object) are compared with the model; finally the backlog must hold nothing the model does not know. A concurrent test checks isolation, per-remote order, no duplicates and unique RemoteAddr under bursts. A controlled-schedule variant runs connection Close, per-remote senders and Accept as scheduler tasks over the yield-instrumented conn.go (a datagram arriving while the Close of its connection is under way) and then checks with real I/O that no two open connections share a remote and that a final datagram per remote is readable from exactly one. Exploration only.",
     "note": "Assumes in-order, loss-free loopback delivery at the sequential test's volumes (one datagram in flight at a time); the concurrent test does not assert completeness. Datagrams above the receive MTU are not generated.",
     "design_ref": "DESIGN.md §3 C11",
 }
@@ -150,7 +150,7 @@ CLAIMS["C19"] = {
 CLAIMS["C01"] = {
     "technique": "rapid-generated topologies and traffic plans through the public API, per-router capture filters, hop-by-hop model walk (NAPT addresses learned and constrained), exact quiescence, then concurrent replay of established flows",
     "engine": "rapid-models",
-    "text": "Generated-input search: root router, up to 4 child routers nested to depth 3 with every NAPT mapping x filtering combination, static or automatic external addresses, or 1:1 NAT; hosts with automatic, single and double static addresses; specific, wildcard and loopback sockets. Every router carries a pass-through capture filter. 5..40 sequential sends (other sockets, replies to observed translated sources, unbound ports, unroutable and loopback addresses, NAT external addresses; payloads 0..1500 incl. really empty; buffer overwritten after the write); after each the network is quiescent (all router loops parked, all queues empty) and the model of Appendix A decides: delivered iff admitted, exactly once, byte-identical, only to the socket bound to the destination, showing the translated source; then the established flows are replayed concurrently in bursts: per-flow order, no duplicates, no foreign socket, completeness. A controlled-schedule variant re-starts the routers inside a scheduler session (every router loop becomes a task) and lets 2..3 sender tasks write on the established flows under rapid-drawn schedules over every lock/channel/select operation of router.go, net.go, conn.go, conn_map.go, chunk_queue.go and nat.go, with the same oracle at quiescence. Exploration only.",
+    "text": "Generated-input search: root router, up to 4 child routers nested to depth 3 with every NAPT mapping x filtering combination, static or automatic external addresses, or 1:1 NAT; hosts with automatic, single and double static addresses; specific, wildcard and loopback sockets. Every router carries a pass-through capture filter. 5..40 sequential sends (other sockets, replies to observed translated sources, unbound ports, unroutable and loopback addresses, NAT external addresses; payloads 0..1500 incl. really empty; buffer overwritten after the write); after each the network is quiescent (all router loops parked, all queues empty) and the model of Appendix A decides: delivered iff admitted, exactly once, byte-identical, only to the socket bound to the destination, showing the translated source; then the established flows are replayed concurrently in bursts: per-flow order, no duplicates, no foreign socket, completeness. A port-pressure variant uses up the NAPT's dynamic port range (16370..16400 filler mappings, lifetime 1 s) and lets an expired owner and the heir of its port keep exchanging requests and replies. A controlled-schedule variant re-starts the routers inside a scheduler session (every router loop becomes a task) and lets 2..3 sender tasks write on the established flows under rapid-drawn schedules over every lock/channel/select operation of router.go, net.go, conn.go, conn_map.go, chunk_queue.go and nat.go, with the same oracle at quiescence. Exploration only.",
     "note": "Trusted: the model (harness/vnete2e/model.go, harness/vnat/model.go); goroutine states from runtime.Stack plus read-only shims for queue lengths decide quiescence. NAT lifetimes are 1 h (expiry is C02/C03).",
     "design_ref": "DESIGN.md §3 C01, Appendix A",
 }
